@@ -26,6 +26,25 @@ CHECKS = {
  "C17": ("other", "R1 code-word literal sets disjoint per type and equal across MT103/202/205 + message-level dispatch set, R2 method-selection chains of the 30 plugin arms (predicate -> method, priority, sibling block-3 tests)", "§4 C17",
          "sibling cross-check of literals and if-chains over resolved HIR"),
 }
+
+CHECKS.update({
+ "C02": ("translation_validation", "parser<->serialiser sibling comparison for 30 message types (G4 order, G5 tag, G6 kind) and 114 field types (CU component usage), header parse vs Display (H1,H3), assembly (H2), line endings (LE), amount rendering vs accepted input (N2,N3); equality of re-parsed values not decided", "§4 C02",
+         "translation validation between sibling functions over resolved HIR (may-flow grammar extraction + append walk)"),
+ "C03": ("translation_validation", "the library's model is the layout: model<->parser<->serialiser kinds and order (G4,G6), option coverage (G7), exact option dispatch (O1), marker-keyed loops (G8), co-occurring options (CO), drop-free conditions (G1-G3); no external layout table", "§4 C03",
+         "translation validation model/parser/serialiser + finite evaluation of option dispatch"),
+ "C04": ("other", "V1 rule wiring and per-type rule counts, V2 documented error codes = emitted code literals (contradiction rule), V5 limit reachability (informational); guard-formula equivalence between sibling rules in the thorough tier; arithmetic rules not decided", "§4 C04",
+         "call-site wiring + doc/body contradiction rules over resolved HIR"),
+ "C05": ("other", "U1 ASCII-only character predicates in the call-graph closure of all parsers, U3 two-sided length for fixed-offset parsers, U4 no silent truncation, T2 validated date components; the full iff over all strings not decided", "§4 C05",
+         "reachability + predicate census + slice/guard shape rules over HIR and MIR call graph"),
+ "C07": ("other", "panic ledger over 889 reachable functions: P1 explicit panics, P2 333 string-slice sites (char boundary + constant-bound length guard), P3 unwrap/expect sites, P4 constant vector indices, P5 recursion/loops listed; termination and relational offsets not decided", "§4 C07",
+         "path-sensitive abstract interpretation (length lower bounds, ASCII-ness, boundary positions, callee summaries) over structured HIR"),
+ "C08": ("translation_validation", "JSON surface read from the generated serde code: J1 key uniqueness incl. flattened enums, J2 serialiser keys = deserialiser key table, J4 untagged distinguishability, J6 ordered containers, T3 date codec symmetry, D1 plugin tables, N1 finite numbers", "§4 C08",
+         "extraction of key tables from derive-expanded HIR + set comparison"),
+ "C09": ("other", "G6 mandatory model field <-> mandatory step with that tag, D1 parser type literal = message_type(), G2 anchored extraction, G3 no discarded error, EP error payload dataflow on the MessageParser constructor sites, MO minimum occurrence", "§4 C09",
+         "kind agreement + def-use tracing of error payloads over resolved HIR"),
+ "C10": ("other", "H1 block-3/5 tag sets parse vs Display, H3 stored components of blocks 1/2 written or derived + I/O direction dispatch, H2 assembly order and sources, U3 over-long header input rejected; block location vs value characters not decided", "§4 C10",
+         "literal-set comparison of sibling functions + slice/guard shape rules"),
+})
 NA = {
  "C15": "quantifies over random draws of the external datafake-rs generators interpreted at run time; no sound static argument in reach bounds what those generators emit (DESIGN.md §4 C15)",
 }
